@@ -88,6 +88,10 @@ type fn struct {
 	repl    map[types.Object]*types.Var
 	replOf  map[types.Object]types.Object
 
+	msgOnly    map[types.Object]bool // local strings that only become messages (msgOnlyVar)
+	rawNilable bool                  // selector(): give the option of a nilable field, not its reading
+	storeOpt   bool                  // store(): the new value of a nilable field is already an option
+
 	// effects
 	effect     bool                  // the function takes and returns the world
 	worldObj   *types.Var            // the variable holding the current world
